@@ -48,6 +48,11 @@ type Step struct {
 	Fn    int    `json:"fn,omitempty"`    // call: 0 = run, 1 = run2
 	Start int    `json:"start,omitempty"` // start: 1 = wasm start section, 2 = exported _start
 	Ops   []int  `json:"ops"`             // script bytes, outermost first
+	// kind "graft": a module (instantiated from its bytes, so that nothing else keeps its code) that
+	// imports the table of instance Inst, stores its function returning graftBase+K in slot 9 and
+	// then, if Start != 0, traps in its start function. A collection and a pause for finalizers
+	// follow: what it left in the table must stay callable.
+	K int `json:"k,omitempty"`
 	// Ctx is the context of the step: "" = Background; "cancel" = a context.WithCancel that is
 	// cancelled right after the step returned; "deadline" = a context whose deadline is reached
 	// right after the step returned. Either way the context is live for the whole call.
@@ -656,6 +661,35 @@ func runCase(c *Case) (msg string, st runStats) {
 			if mod != nil {
 				mod.Close(ctx)
 			}
+		case "graft":
+			owner := m.insts[s.Inst]
+			failing := s.Start != 0
+			var want *failure
+			switch {
+			case owner.closed:
+				want = &failure{Kind: "link"}
+			case failing:
+				want = &failure{Kind: "trap", Detail: "unreachable"}
+				owner.grafted, owner.graftK = true, s.K
+			default:
+				owner.grafted, owner.graftK = true, s.K
+			}
+			lbl(fmt.Sprintf("graft-step:failing=%v", failing))
+			var ierr error
+			var escaped any
+			func() {
+				defer func() { escaped = recover() }()
+				_, ierr = w.rt.InstantiateWithConfig(sctx, buildGraft(owner.name, s.K, failing), wazero.NewModuleConfig().WithName(fmt.Sprintf("graft%d", k)))
+			}()
+			if escaped != nil {
+				return fmt.Sprintf("%s: a panic escaped InstantiateWithConfig: %v", where(), escaped), st
+			}
+			if d := matches(ierr, want); d != "" {
+				return where() + ": instantiation: " + d, st
+			}
+			// let the collector and the finalizers do what they want to do with the failed instance
+			runtime.GC()
+			time.Sleep(3 * time.Millisecond)
 		default:
 			continue
 		}
@@ -677,6 +711,9 @@ func runCase(c *Case) (msg string, st runStats) {
 		}
 		if m.onClosed > 0 {
 			lbl("call-on-closed-instance")
+		}
+		if m.graftCalls > 0 {
+			lbl("call-of-table-entry-left-by-another-module")
 		}
 		if m.viaTable > 0 {
 			lbl("host-function-reached-through-table")
@@ -774,7 +811,9 @@ func genOps(t *rapid.T, ninst int, recBudget *int, inStart bool) []int {
 	var ops []int
 	nest := rapid.SampledFrom([]int{0, 0, 0, 0, 1, 1, 1, 2, 2, 3, 4, 5}).Draw(t, "nest")
 	for i := 0; i < nest; i++ {
-		switch rapid.SampledFrom([]string{"cb", "cb", "cb", "local", "peer", "peer", "indirect"}).Draw(t, "nest-kind") {
+		switch rapid.SampledFrom([]string{"cb", "cb", "cb", "cb", "cb", "cb", "local", "local", "peer", "peer", "peer", "peer", "indirect", "indirect", "graft"}).Draw(t, "nest-kind") {
+		case "graft":
+			ops = append(ops, opNestGraft)
 		case "cb":
 			tgt := rapid.IntRange(0, 3).Draw(t, "cb-target")
 			if tgt < 3 && tgt >= ninst {
@@ -842,6 +881,7 @@ func genCase(t *rapid.T) *Case {
 	c.CloseOnDone = rapid.Bool().Draw(t, "close-on-context-done")
 	c.FinalCode = rapid.SampledFrom([]uint32{0, 0, 7, 0xfffffffe}).Draw(t, "final-code")
 	n := rapid.IntRange(5, 40).Draw(t, "nsteps")
+	withGraft := rapid.IntRange(0, 5).Draw(t, "with-graft") == 0 // graft steps force collections: in a share of the histories only
 	// stack exhaustion costs 0.1-0.6 s under the compiler: at most 2 per history, and only in a
 	// share of the histories
 	recBudget, lastRec := 0, -1
@@ -850,6 +890,15 @@ func genCase(t *rapid.T) *Case {
 	}
 	for k := 0; k < n; k++ {
 		s := Step{Kind: "call", Inst: rapid.IntRange(0, c.NInst-1).Draw(t, "inst")}
+		if withGraft && rapid.IntRange(0, 11).Draw(t, "graft?") == 0 {
+			// another module writes into this instance's table and (mostly) fails afterwards; then
+			// the instance calls what was left there, now and later
+			g := Step{Kind: "graft", Inst: s.Inst, Start: rapid.SampledFrom([]int{1, 1, 1, 0}).Draw(t, "graft-fails"), K: rapid.IntRange(0, 3).Draw(t, "graft-k")}
+			g.Ctx = rapid.SampledFrom([]string{"", "cancel"}).Draw(t, "step-context")
+			c.Steps = append(c.Steps, g, Step{Kind: "call", Inst: s.Inst, Fn: rapid.IntRange(0, 1).Draw(t, "fn"), Ops: []int{opNestGraft, opLeaf}, Desc: describeOps([]int{opNestGraft, opLeaf})})
+			k++
+			continue
+		}
 		if rapid.IntRange(0, 11).Draw(t, "start?") == 0 {
 			s.Kind = "start"
 			s.Start = rapid.IntRange(startSection, startExport).Draw(t, "start-kind")
